@@ -16,6 +16,7 @@ package weighted_sum
 
 //@ func (*weightedSumParams).Criterion
 //@   property C07 C15 C18 C03 C16 C19 C01 C09 C20
+//@   indexsafe
 //@   requires p.weightedCriteria != nil
 //@   panics_iff [missing] !(exists k int :: 0 <= k && k < len(*p.weightedCriteria) && (*p.weightedCriteria)[k].Id == criterion)
 //@   ensures [first_match] exists k int :: 0 <= k && k < len(*p.weightedCriteria) && result == (*p.weightedCriteria)[k] && result.Id == criterion
@@ -23,6 +24,7 @@ package weighted_sum
 
 //@ func (*WeightedSumBiasListener).OnCriteriaRemoved
 //@   property C07 C15 C03 C01 C09 C20
+//@   indexsafe
 //@   nopanic
 //@   refines model.BiasListener.OnCriteriaRemoved with validParams=wsValid, coversId=wsCovers
 //@   ensures [weights_kept] typeis(result, weightedSumParams) && len(*result.(weightedSumParams).weightedCriteria) == len(*leftCriteria)
@@ -35,6 +37,7 @@ package weighted_sum
 
 //@ func (*WeightedSumBiasListener).OnCriterionAdded
 //@   property C07 C18 C03 C01 C09 C19 C20
+//@   indexsafe
 //@   nopanic
 //@   fnparam generator ensures 0.0 <= result && result < 1.0
 //@   refines model.BiasListener.OnCriterionAdded with validParams=wsValid, coversId=wsCovers, accepts=wsAccepts, acceptsAny=wsAcceptsAny
@@ -46,6 +49,7 @@ package weighted_sum
 
 //@ func (*WeightedSumBiasListener).Merge
 //@   property C07 C18 C03 C01 C09 C19 C20
+//@   indexsafe
 //@   nopanic
 //@   refines model.BiasListener.Merge with validParams=wsValid, coversId=wsCovers, accepts=wsAccepts, acceptsAny=wsAcceptsAny
 
@@ -57,6 +61,7 @@ package weighted_sum
 
 //@ func WeightedSum
 //@   property C03 C01 C04 C07 C15 C18 C20
+//@   indexsafe
 //@   ensures [single_value] fresh(result) && typeis(result.Evaluation, model.EvaluationSingleValue) && result.Alternative == alternative
 //@   ensures [C03 weighted] model.val(*result) == wsum(alternative, criteria, len(criteria))
 //@   ensures [unweighted_sum] model.val(*result) == usum(alternative, criteria, len(criteria))
@@ -66,12 +71,14 @@ package weighted_sum
 // the per-alternative evaluation closure of Evaluate: WeightedSum of the alternative over the parameters' weighted criteria
 //@ func (*WeightedSumPreferenceFunc).Evaluate$1
 //@   property C03 C01 C04 C15 C07 C18 C20
+//@   indexsafe
 //@   requires params.weightedCriteria != nil
 //@   ensures [is_weighted_sum] result != nil && typeis(result.Evaluation, model.EvaluationSingleValue) && result.Alternative == *alternative
 //@             && model.val(*result) == usum(*alternative, *params.weightedCriteria, len(*params.weightedCriteria))
 
 //@ func (*WeightedSumPreferenceFunc).Evaluate
 //@   property C03 C01 C04 C15 C07 C18 C20
+//@   indexsafe
 //@   requires [distinct] forall i int, j int :: 0 <= i && i < j && j < len(dmp.ConsideredAlternatives) ==> dmp.ConsideredAlternatives[i].Id != dmp.ConsideredAlternatives[j].Id
 //@   requires [params] typeis(dmp.MethodParameters, weightedSumParams) && dmp.MethodParameters.(weightedSumParams).weightedCriteria != nil
 //@   ensures [one_entry_each] result != nil && len(*result) == len(dmp.ConsideredAlternatives)
@@ -84,21 +91,25 @@ package weighted_sum
 // ---- importance of a criterion for this method (C15): its weight times the values cumulated over the considered alternatives
 //@ func (*WeightedSumBiasListener).RankCriteriaAscending$1
 //@   property C15 C07 C16 C18 C19 C01 C09 C20
+//@   indexsafe
 //@   requires wParams.weightedCriteria != nil
 //@   ensures [weight_times_value] exists k int :: 0 <= k && k < len(*wParams.weightedCriteria) && (*wParams.weightedCriteria)[k].Id == criterion && result == (*wParams.weightedCriteria)[k].Weight * value
 
 // the parsed parameters: every declared criterion, in declared order, with the weight the request gives it
 //@ func (*WeightedSumPreferenceFunc).ParseParams
 //@   property C03 C20 C07 C01
+//@   indexsafe
 //@   ensures [declared_criteria_with_their_weights] typeis(result, weightedSumParams) && result.(weightedSumParams).weightedCriteria != nil
 //@             && len(*result.(weightedSumParams).weightedCriteria) == len(dm.Criteria)
 //@             && forall i int :: 0 <= i && i < len(dm.Criteria) ==> (*result.(weightedSumParams).weightedCriteria)[i].Criterion == dm.Criteria[i]
 //@ func (*WeightedSumPreferenceFunc).Identifier
 //@   property C20 C03 C01 C04 C05 C06 C07 C08 C09 C11 C12 C13 C14 C15 C16 C17 C18 C19
+//@   indexsafe
 //@   nopanic
 //@   ensures [name] result == "weightedSum"
 //@ func (*WeightedSumPreferenceFunc).MethodParameters
 //@   property C20 C03
+//@   indexsafe
 //@   nopanic
 //@   ensures [schema_of_the_weights_parameter] typeis(result, model.WeightType)
 
@@ -112,6 +123,7 @@ package weighted_sum
 // ---- registered names (what a request must say to select this object; what error messages list)
 //@ func (*WeightedSumBiasListener).Identifier
 //@   property C07 C20 C01 C03 C04 C05 C06 C08 C09 C11 C12 C13 C14 C15 C16 C17 C18 C19
+//@   indexsafe
 //@   nopanic
 //@   ensures [name] result == "weightedSum"
 
@@ -119,6 +131,7 @@ package weighted_sum
 // weight x value per considered alternative)
 //@ func (*WeightedSumBiasListener).RankCriteriaAscending
 //@   property C15 C07 C16 C18 C19 C01 C09 C20
+//@   indexsafe
 //@   requires [distinct] model.distinctCriteria(params.Criteria)
 //@   requires [valid] typeis(params.MethodParameters, weightedSumParams) && params.MethodParameters.(weightedSumParams).weightedCriteria != nil
 //@   ensures [every_criterion_once_ascending] result != nil && fresh(result) && fresh(*result) && len(*result) == len(params.Criteria)
